@@ -48,7 +48,8 @@ def gen_case(rng, i):
         k = len(a["names"])
         nv = 1 if rng.random() < .7 else 2
         c["vars"] = [int(rng.integers(k)) for _ in range(nv)]
-        c["how"] = [gen.choice(rng, ["name", "position", "poly", "vector-element"]) for _ in range(nv)]
+        c["how"] = [gen.choice(rng, ["name", "position", "poly", "vector-element", "numpy-int", "numpy-uint8", "poly-detour"])
+                    for _ in range(nv)]
         if a.get("unsorted_names") and rng.random() < .7:
             # successive positions on unsorted names: each one means the input's own name order
             c["vars"] = [int(rng.integers(k)) for _ in range(2)]
@@ -87,6 +88,16 @@ def designate(p, j, how):
         return p.names[j]
     if how == "position":
         return int(j)
+    if how == "numpy-int":
+        return numpy.int64(j)       # what numpy.argmax / a loop over numpy.arange hand over (D45)
+    if how == "numpy-uint8":
+        return numpy.uint8(j)
+    if how == "poly-detour":
+        # the indeterminate reached through arithmetic, made under the options in force: under retain_coefficients=True it
+        # carries a zero constant term and zero terms of the other indeterminate (D44)
+        x = numpoly.symbols(p.names[j])
+        other = numpoly.symbols(p.names[(j + 1) % len(p.names)])
+        return ((x + 1) - 1) if len(p.names) == 1 else ((x + other + 2) - other - 2)
     if how == "vector-element":
         # an element of a vector of indeterminates, made under the options in force: under retain_coefficients=True it
         # carries the other indeterminates as all-zero terms
